@@ -20,7 +20,9 @@ def parseCb (s : String) : Option CbRule := match nums s with
 
 def parseFlow (s : String) : Option FlowRule := match nums s with
   | some [id, res, tcs, cb, thr, rel, ref, maxQ, period, cf, statIv] =>
-    some { id, res, tcs, cb, thr, rel, ref, maxQ, period, cf, statIv }
+    some { id, res, tcs, cb, thr, rel, ref, maxQ, period, cf, statIv, lowMem := 0, highMem := 0, memLow := 0, memHigh := 0 }
+  | some [id, res, tcs, cb, thr, rel, ref, maxQ, period, cf, statIv, lowMem, highMem, memLow, memHigh] =>
+    some { id, res, tcs, cb, thr, rel, ref, maxQ, period, cf, statIv, lowMem, highMem, memLow, memHigh }
   | _ => none
 
 def parseHot (s : String) : Option HotRule := match nums s with
@@ -34,7 +36,7 @@ def parseList {α} (p : String → Option α) (s : String) : Option (List α) :=
 /-- what the model can execute (anything else is `bad-op`) -/
 def cbSupported (r : CbRule) : Bool := r.strat ≤ 2
 def flowSupported (r : FlowRule) : Bool :=
-  r.rel == 0 && r.ref == 0 && (r.tcs == 0 || (r.tcs == 1 && r.cb == 0 && r.thr > 0))
+  r.rel == 0 && r.ref == 0 && (r.tcs == 0 || (r.tcs == 1 && r.cb == 0 && r.thr > 0) || r.tcs == 2) && r.cb ≤ 1
 
 def hotSupported (r : HotRule) : Bool := r.mtype ≤ 1 && r.cb ≤ 1 && r.pidx == 0 && r.items != 1
 def hotInert (r : HotRule) : Bool := r.cb ≤ 1 && r.thr ≥ bigThr && (r.items != 2 || r.sthr ≥ bigThr)
@@ -54,6 +56,7 @@ structure St where
   hot : Mgr HotRule HotSt := Mgr.empty
   now : Nat := 1900000000000     -- every phase starts at the same virtual time
   nodes : List (Nat × Sentinel.LA.Arr Nat) := []     -- resource nodes: pass counts (20 × 500 ms)
+  mem : Int := -1                                  -- system_metric.CurrentMemoryUsage (−1 = not retrieved)
   live : List (Nat × Nat × Nat × Nat) := []        -- entries in flight: handle ↦ (resource, argument, start time)
   -- oracle side
   phaseB : Bool := false
@@ -76,7 +79,7 @@ def nodeOf (s : St) (x : Nat) : Sentinel.LA.Arr Nat := lookup (Sentinel.LA.mk 20
 def enterChecks (s : St) (x : Nat) (arg : Nat) : St × Option String × Nat :=
   let node := nodeOf s x
   let s := { s with nodes := assoc s.nodes x node }
-  let (fb, w, fcs) := flowScan s.now (flowRead node s.now) (s.flow.ctls x)
+  let (fb, w, fcs) := flowScan s.now s.mem (flowRead node s.now) (s.flow.ctls x)
   let s := { s with flow := s.flow.set x fcs }
   match fb with
   | some id => (s, some s!"block flow {id}", 0)
@@ -208,6 +211,9 @@ def stepCore (s : St) (ts : List String) : St × Option String :=
   | ["e", x, err, a, rt] => match x.toNat?, err.toNat?, a.toNat?, rt.toNat? with
     | some x, some err, some a, some rt => let (s, r) := entry s x (err != 0) a rt; (s, some r)
     | _, _, _, _ => (s, some "bad-op")
+  | ["mem", m] => match m.toNat? with
+    | some m => ({ s with mem := m }, none)
+    | none => (s, some "bad-op")
   | ["in", h, x, a] => match h.toNat?, x.toNat?, a.toNat? with
     | some h, some x, some a => let (s, r) := enterLive s h x a; (s, some r)
     | _, _, _ => (s, some "bad-op")
@@ -278,6 +284,7 @@ def stepOracle0 (s : St) (ts : List String) (line : String) : St × Option Strin
     ({ s with recA := s.recA.push (res, f) }, some "?")
   | ["out", _, _] => (s, none)
   | ["t", _] => (s, none)
+  | ["mem", _] => (s, none)
   | _ =>
     let re := isReload ts
     match ts with
